@@ -2,6 +2,8 @@
 # usage: seed_verify.sh <seed-name> <source-dir-with-seed/> <property> [more properties to run]
 # Confirms a seeded change in a fresh scratch worktree (suite green with it, demo fails with it
 # and passes without it), stores it under /verif/seeded/<name>/ and runs the given checks against it.
+# The patch is re-based onto /repo's current HEAD (git apply, falling back to -C1) and the
+# re-based diff is what is stored.
 set -u
 name=$1; src=$2; shift 2; props="$@"
 wt=/tmp/sv-$name
@@ -10,39 +12,31 @@ mkdir -p $out
 git -C /repo worktree remove --force $wt 2>/dev/null
 git -C /repo worktree add -f --detach $wt HEAD -q || exit 3
 cp /repo/Cargo.lock $wt/ 2>/dev/null
-export CARGO_TARGET_DIR=$wt/target CARGO_NET_OFFLINE=true
+export CARGO_TARGET_DIR=$wt/target CARGO_NET_OFFLINE=true VERIF_MAX_REPLAYS=1
 cd $wt
-git apply $src/seed/patch.diff || { echo "PATCH DOES NOT APPLY"; exit 3; }
+git apply $src/seed/patch.diff 2>/dev/null || git apply -C1 $src/seed/patch.diff || { echo "PATCH DOES NOT APPLY"; cd /; git -C /repo worktree remove --force $wt; exit 3; }
+git diff > /tmp/sv-$name.rebased.diff
 suite=$(cargo test --workspace --offline 2>&1 | grep -E "^test result" | awk '{p+=$4; f+=$6} END {print p" passed "f" failed"}')
 echo "suite with change (no demo): $suite"
 cp $src/seed/demo.rs epserde/tests/seed_demo.rs
-with=$(cargo test -p epserde --offline --test seed_demo 2>&1 | grep -E "^test result" | tail -1)
+cargo test -p epserde --offline --test seed_demo > /tmp/sv-$name.with.log 2>&1; wrc=$?
+with="exit=$wrc $(grep -E '^test result|SIGABRT|SIGSEGV|signal' /tmp/sv-$name.with.log | tail -1)"
 echo "demo WITH change: $with"
 git checkout -q -- epserde/src epserde-derive/src
-without=$(cargo test -p epserde --offline --test seed_demo 2>&1 | grep -E "^test result" | tail -1)
+cargo test -p epserde --offline --test seed_demo > /tmp/sv-$name.without.log 2>&1; worc=$?
+without="exit=$worc $(grep -E '^test result' /tmp/sv-$name.without.log | tail -1)"
 echo "demo WITHOUT change: $without"
-rm -f epserde/tests/seed_demo.rs
-git apply $src/seed/patch.diff
-cp $src/seed/patch.diff $src/seed/demo.rs $out/
+rm -f epserde/tests/seed_demo.rs /tmp/sv-$name.with.log /tmp/sv-$name.without.log
+git apply /tmp/sv-$name.rebased.diff
+cp $src/seed/demo.rs $out/; mv /tmp/sv-$name.rebased.diff $out/patch.diff
 cp $src/seed/README.md $out/AGENT_README.md 2>/dev/null
 results=""
 for p in $props; do
-  VERIF_REPO=$wt VERIF_WORK=/verif/.work-mut /verif/bin/check $p --tier quick > $out/check_$p.log 2>&1
+  VERIF_REPO=$wt VERIF_WORK=${MUTWORK:-/verif/.work-mut} VERIF_JOBS=${MUTJOBS:-14} /verif/bin/check $p --tier quick > $out/check_$p.log 2>&1
   rc=$?
   echo "check $p on mutant: rc=$rc  $(grep -c '^VIOLATION' $out/check_$p.log) violation lines"
   grep -E "^VIOLATION|failed check" $out/check_$p.log | head -6 | cut -c1-260
   results="$results $p:rc=$rc"
 done
 cd /; git -C /repo worktree remove --force $wt
-python3 - "$name" "$suite" "$with" "$without" "$results" <<'PY'
-import json,sys,os
-name,suite,w,wo,res=sys.argv[1:6]
-p=f"/verif/seeded/{name}/meta.json"
-m=json.load(open(p)) if os.path.exists(p) else {}
-info=json.load(open("/verif/seeded/INFO.json")).get(name,{})
-m.update(info)
-m.update({"name":name,"suite_with_change":suite,"demo_with_change":w,"demo_without_change":wo,
-          "checks_run":{r.split(':')[0]:r.split(':')[1] for r in res.split()},
-          "how":"fresh worktree of /repo HEAD; git apply patch.diff; cargo test --workspace --offline; demo as epserde/tests/seed_demo.rs with and without the patch; VERIF_REPO=<worktree> bin/check <ID> --tier quick"})
-json.dump(m,open(p,"w"),indent=1)
-PY
+python3 /verif/bin/seed_meta.py "$name" "$suite" "$with" "$without" "$results"
